@@ -20,7 +20,7 @@ P = {
                  'classification file',
     'drivers': [
         {'name': 'mapscan', 'n': {'quick': 1, 'thorough': 1}},
-        {'name': 'replicas', 'n': {'quick': 40, 'thorough': 800}, 'shrink_field': 'blocks', 'batch': 12, 'timeout': 3000},
+        {'name': 'replicas', 'n': {'quick': 64, 'thorough': 800}, 'shrink_field': 'blocks', 'batch': 12, 'timeout': 3000},
         {'name': 'registries', 'n': {'quick': 160, 'thorough': 3000}, 'batch': 2000},
         {'name': 'upgrade175', 'n': {'quick': 0, 'thorough': 3}, 'timeout': 3000},
     ],
